@@ -39,7 +39,8 @@ def mkTable (env : Env) (parts : List String) (alias : Option String) : DObj :=
       let parent := ".".intercalate (quals.map Ident.escapeS)
       if parent != "" then parent else defaultSchema env
   let raw := Ident.escapeS name
-  ⟨.table schema raw, some (Ident.escapeS (alias.getD raw))⟩
+  -- D50 repaired: the default alias is the normalised name itself, not normalised a second time (models.py:66)
+  ⟨.table schema raw, some (match alias with | some a => Ident.escapeS a | none => raw)⟩
 
 def anonAlias : String := "subquery_?"
 
